@@ -5,6 +5,7 @@ package scen
 import (
 	"context"
 	"fmt"
+	"reflect"
 	"regexp"
 	"strings"
 	"sync"
@@ -492,11 +493,14 @@ func clientStacks() string {
 	return strings.Join(out, "\n\n")
 }
 
-// publishLoopPaused reports whether a client's publish loop goroutine is
-// waiting in its paused state (it is not inside publish()).
-func publishLoopPaused() bool {
+// publishLoopPaused reports whether the publish loop goroutine of client c is
+// waiting in its paused state (it is not inside publish()). Other clients of the
+// run (writers without subscriptions are paused by design) are not looked at: the
+// goroutine is identified by the receiver pointer in its stack trace.
+func publishLoopPaused(c *opcua.Client) bool {
+	recv := fmt.Sprintf("opcua.(*Client).monitorSubscriptions(%#x,", reflect.ValueOf(c).Pointer())
 	for _, g := range strings.Split(sim.GoroutineDump(), "\n\n") {
-		if strings.Contains(g, "opcua.(*Client).monitorSubscriptions") && !strings.Contains(g, "opcua.(*Client).publish(") {
+		if strings.Contains(g, recv) && !strings.Contains(g, "opcua.(*Client).publish(") {
 			hdr, _, _ := strings.Cut(g, "\n")
 			if strings.Contains(hdr, "select") {
 				return true
